@@ -254,3 +254,49 @@ def rule_interp_kwargs(ctx):
                       msg=f"{name}: interp1d must be called with x = column 0, kind='previous', fill_value='extrapolate' "
                           f"(found kind={norm(kind) if kind else None}, fill_value={norm(fill) if fill else None}, "
                           f"x={norm(c.args[0]) if c.args else None}): 'the latest element starting at or before t'")
+
+
+def rule_empty_2d(ctx):
+    ctx.rule("EMPTY2D", "in the map properties an array built from a possibly-empty comprehension of rows is indexed with two "
+                        "subscripts only after a dominating `len(X) == 0` test that rebinds X, or it is reshaped to 2-d when built "
+                        "(np.array([]) is one-dimensional)")
+    w = world(ctx)
+    for name in PREV_MAPS + ("measure_map", "measure_number_map"):
+        f = ctx.prog.func(f"{PART}.{name}", "EMPTY2D")
+        ctx.touch(f)
+        cfg = w.inf.cfg(f)
+        dom = cfg.dominators(include_exc=False)
+        arrays = {}
+        for n in own_nodes(f.node):
+            if isinstance(n, ast.Assign) and len(n.targets) == 1 and isinstance(n.targets[0], ast.Name):
+                v = n.value
+                reshaped = isinstance(v, ast.Call) and isinstance(v.func, ast.Attribute) and v.func.attr == "reshape"
+                inner = v.func.value if reshaped else v
+                if isinstance(inner, ast.Call) and norm(inner.func) in ("np.array", "numpy.array") and inner.args \
+                        and isinstance(inner.args[0], ast.ListComp) and n.targets[0].id not in arrays:
+                    arrays[n.targets[0].id] = reshaped
+        ctx.require(arrays, "EMPTY2D", f.qname, "row table not found")
+        for var, reshaped in arrays.items():
+            subs = [s for s in own_nodes(f.node) if isinstance(s, ast.Subscript) and isinstance(s.ctx, ast.Load) and norm(s.value) == var
+                    and isinstance(s.slice, ast.Tuple)]
+            bad = None
+            for s in subs:
+                if reshaped:
+                    continue
+                st = s
+                while cfg.node_of(st) is None:
+                    st = st._parent
+                sn = cfg.node_of(st)
+                ok = False
+                for t in cfg.nodes:
+                    if t.kind == "test" and t in dom.get(sn, ()) and t is not sn:
+                        tt = t.ast
+                        if isinstance(tt, ast.Compare) and isinstance(tt.left, ast.Call) and norm(tt.left.func) == "len" \
+                                and norm(tt.left.args[0]) == var and isinstance(tt.comparators[0], ast.Constant) and tt.comparators[0].value == 0:
+                            ok = True
+                if not ok:
+                    bad = s
+                    break
+            ctx.check(bad is None, "EMPTY2D", f"{f.qname}:{var}", func=f, node=bad, construct=f"2d-index-of-possibly-empty:{var}",
+                      msg=f"`{norm(bad) if bad is not None else ''}` indexes `{var}` with two subscripts, but `{var}` is one-dimensional "
+                          f"when the part has no such element (np.array([])): IndexError instead of the documented default")
